@@ -51,6 +51,15 @@ def ask(p, text, debug_filename=False):
     return r
 
 
+def ask_cli(p, texts):
+    p.stdin.write(json.dumps({'cli': texts}) + '\n')
+    p.stdin.flush()
+    r = p.stdout.readline().strip()
+    if not r:
+        raise HarnessError('compile worker died')
+    return r
+
+
 def local(text, debug=False, debug_filename=False, from_file=False):
     class Ctx(impl.compiler.CompilerContext):       # options as a user would make them: derived from the library's class
         pass
@@ -89,7 +98,7 @@ class C18(Prop):
             'a program B derived from A (A\'s clauses behind an extra if-then-else clause, reversed, or a subset - the same '
             'clause text at another label / variable offset), and an unrelated program C (sometimes malformed, sometimes '
             'compiled with all debug options, sometimes failing inside the clause compiler, sometimes compiled from a '
-            'file with default options). In-process order: A, B, C, A, A with debug_filename. Oracles: the second compilation of A is '
+            'file with default options). In-process order: A, B, C, A, A with debug_filename. One case in five: the texts are also the source files of one command-line run (-o) in every worker, whose exit status and output file must be the same in all of them. Oracles: the second compilation of A is '
             'byte-identical to the first; six persistent worker processes started with PYTHONHASHSEED 0, 1, 2, 3, 4242 and '
             'random, each with a DIFFERENT compilation history (even workers are only ever asked for A-texts, odd ones for '
             'B-texts), return the same SHA-256 as the in-process compilations of A and of B. Once per run: every .prolog '
@@ -141,7 +150,10 @@ class C18(Prop):
             c += 'oops( .\n'
         elif cmode == 'too-large':
             c += 'big :- ' + ', '.join('g(X%d)' % i for i in range(25)) + '.\n'
-        return {'a': a, 'b': b, 'c': c, 'cmode': cmode}
+        case = {'a': a, 'b': b, 'c': c, 'cmode': cmode}
+        if src.n(5) == 0:
+            case['cli'] = True      # additionally: A, B, C (and A again) as the source files of one command-line run
+        return case
 
     def case_key(self, case):
         return case['a'] + '\x00' + case['b'] + '\x00' + case['c']
@@ -176,9 +188,18 @@ class C18(Prop):
             if r != h:
                 kind = 'hash-seed-or-process' if SEEDS[i] != '0' else 'compilation-history'
                 return FAIL('other-process-differs:' + which, dict(detail, worker_hashseed=SEEDS[i], in_process=h[:16], worker=r[:16], suspected=kind))
+        cli_class = []
+        if case.get('cli'):
+            texts = [a, b, c, a] if len(a) % 2 else [b, a, c]
+            rs = [ask_cli(p, texts) for p in ws]
+            if any(r.startswith('EXC:') for r in rs):
+                raise HarnessError('command-line run in a compile worker failed: %r' % rs)
+            if len(set(rs)) != 1:
+                return FAIL('command-line-output-differs-between-processes', dict(detail, sources='A B C A' if len(a) % 2 else 'B A C', results=dict(zip(SEEDS, (r[:24] for r in rs)))))
+            cli_class = ['command-line:%d-sources' % len(texts)]
         import re
         nt = False
-        classes = ['C:' + case['cmode']]
+        classes = ['C:' + case['cmode']] + cli_class
         if h_a1.startswith('EXC'):
             classes.append('A-refused:' + h_a1[4:])
         else:
